@@ -35,6 +35,36 @@ def _check_scipy_version() -> bool:
     return version.parse(scipy.__version__) >= version.parse(MIN_SCIPY_VERSION)
 
 
+def _max_violation(problem: Problem, variables: list, values: dict[str, float]) -> float:
+    """Largest violation of the problem's constraints and bounds at `values`
+    beyond the tolerance atol + rtol * max(1, |value|) (0.0 if there is none)."""
+    import numpy as np
+
+    atol = rtol = 1e-6
+    worst = 0.0
+    for constraint in problem.constraints:
+        with np.errstate(all="ignore"):
+            value = constraint.evaluate(values)
+        if not np.isfinite(value):
+            return float("inf")
+        if constraint.sense == "<=":
+            violation = value
+        elif constraint.sense == ">=":
+            violation = -value
+        else:
+            violation = abs(value)
+        if violation > atol + rtol * max(1.0, abs(value)):
+            worst = max(worst, violation)
+    for var in variables:
+        x = values[var.name]
+        lb = var.lb if var.lb is not None else -np.inf
+        ub = var.ub if var.ub is not None else np.inf
+        violation = max(lb - x, x - ub)
+        if not np.isfinite(x) or violation > atol + rtol * max(1.0, abs(x)):
+            worst = max(worst, violation if np.isfinite(x) else float("inf"))
+    return worst
+
+
 def solve_lp(
     problem: Problem,
     method: str | None = None,
@@ -202,6 +232,18 @@ def solve_lp(
     if result.x is not None:
         for i, var_name in enumerate(lp_data.variables):
             values[var_name] = float(result.x[i])
+
+    # linprog solved the *extracted* LP. Confirm an optimal point against the
+    # model itself (same rule as the SciPy route): extraction gaps, or HiGHS
+    # dropping coefficients below its 1e-9 threshold, must not surface as OPTIMAL.
+    if status == SolverStatus.OPTIMAL and values:
+        max_violation = _max_violation(problem, variables, values)
+        if max_violation > 0.0:
+            status = SolverStatus.FAILED
+            result.message = (
+                f"{result.message} Returned point violates the model's constraints "
+                f"or bounds (max violation: {max_violation:.2e})."
+            )
 
     # Compute actual objective value. linprog only sees the coefficient vector,
     # so result.fun lacks the objective's constant term: report the user's
